@@ -46,8 +46,8 @@ type Known struct {
 	Status   string `json:"status"` // open | fixed
 	// AnyProperty: the same defect is met (and tolerated) while checking other
 	// properties whose worlds exercise the same code.
-	AnyProperty bool `json:"any_property,omitempty"`
-	Commit   string `json:"commit,omitempty"`
+	AnyProperty bool   `json:"any_property,omitempty"`
+	Commit      string `json:"commit,omitempty"`
 }
 
 func LoadKnown(path string) []Known {
@@ -87,22 +87,22 @@ func IsKnown(ks []Known, v *Violation) *Known {
 
 // Summary is what a worker shard reports to the orchestrator.
 type Summary struct {
-	Property   string                   `json:"property"`
-	Tier       string                   `json:"tier"`
-	Seed       uint64                   `json:"seed"`
-	Shard      int                      `json:"shard"`
-	Runs       int64                    `json:"runs"`
-	RunsByWorld map[string]int64        `json:"runs_by_world"`
-	Hashes     []string                 `json:"nontrivial_hashes"`
-	Counters   map[string]int64         `json:"counters"`
-	SimNanos   int64                    `json:"sim_nanos"`
-	WallS      float64                  `json:"wall_s"`
-	Violations []SummaryViolation       `json:"violations"`
-	KnownSeen  map[string]int64         `json:"known_seen"`
-	Samples    []map[string]interface{} `json:"samples"`
-	Completed  bool                     `json:"completed"`
-	Exhaustive map[string]bool          `json:"exhaustive,omitempty"`
-	Note       string                   `json:"note,omitempty"`
+	Property    string                   `json:"property"`
+	Tier        string                   `json:"tier"`
+	Seed        uint64                   `json:"seed"`
+	Shard       int                      `json:"shard"`
+	Runs        int64                    `json:"runs"`
+	RunsByWorld map[string]int64         `json:"runs_by_world"`
+	Hashes      []string                 `json:"nontrivial_hashes"`
+	Counters    map[string]int64         `json:"counters"`
+	SimNanos    int64                    `json:"sim_nanos"`
+	WallS       float64                  `json:"wall_s"`
+	Violations  []SummaryViolation       `json:"violations"`
+	KnownSeen   map[string]int64         `json:"known_seen"`
+	Samples     []map[string]interface{} `json:"samples"`
+	Completed   bool                     `json:"completed"`
+	Exhaustive  map[string]bool          `json:"exhaustive,omitempty"`
+	Note        string                   `json:"note,omitempty"`
 	// Digests (determinism self-test): one digest per run of what the run
 	// observed (non-trivial keys, counters, verdict), keyed world/idx.
 	Digests map[string]string `json:"digests,omitempty"`
@@ -181,6 +181,7 @@ func RunWorker(t *testing.T) {
 	}
 	// runaway recursion must die in milliseconds, not at the default 1 GB
 	debug.SetMaxStack(envInt("VERIF_MAX_STACK_MB", 48) << 20)
+	RaceLogInit()
 	ws := Worlds[prop]
 	if len(ws) == 0 {
 		fmt.Fprintf(os.Stderr, "HARNESS: no world for %s\n", prop)
@@ -255,6 +256,9 @@ func RunWorker(t *testing.T) {
 		if onlyWorld != "" && w.Name != onlyWorld {
 			continue
 		}
+		if ows := os.Getenv("VERIF_WORLDS"); ows != "" && !strings.Contains(","+ows+",", ","+w.Name+",") {
+			continue
+		}
 		if skipping && w.Name != resumeWorld {
 			continue
 		}
@@ -298,7 +302,7 @@ func RunWorker(t *testing.T) {
 					os.WriteFile(journal+".plan", bs, 0o644)
 				}
 			}
-			res := w.Exec(t, plan, os.Getenv("VERIF_TRACE") != "")
+			res := execWorld(w, t, plan, os.Getenv("VERIF_TRACE") != "")
 			if os.Getenv("VERIF_TRACE") != "" {
 				for _, l := range res.Trace {
 					fmt.Println("TRACE", l)
@@ -370,13 +374,39 @@ func RunWorker(t *testing.T) {
 			}
 			seenSig[key] = true
 			// minimise, then write the replay file
-			exec := func(p *Plan) *Result { return w.Exec(t, p, false) }
+			exec := func(p *Plan) *Result { return execWorld(w, t, p, false) }
+			if v.Class == "data-race" {
+				// The schedule of a plan is fixed, the detector's memory is not: its
+				// shadow cells are few per word and replaced pseudo-randomly, so a
+				// report can be missing from a re-execution of the very same
+				// schedule.  A report is never spurious; a missing one is retried.
+				exec = func(p *Plan) *Result {
+					var r *Result
+					for i := 0; i < 3; i++ {
+						if r = execWorld(w, t, p, false); r.Viol != nil {
+							break
+						}
+					}
+					return r
+				}
+			}
 			mp, mv, mruns := Minimise(plan, v, exec, envInt("VERIF_MIN_RUNS", 400), 25*time.Second)
-			tr := w.Exec(t, mp, true)
+			tr := execWorld(w, t, mp, true)
 			if tr.Viol == nil || tr.Viol.Class != v.Class || tr.Viol.Sig != v.Sig {
 				// minimised plan did not reproduce: keep the original plan
 				mp, mv = plan, v
-				tr = w.Exec(t, mp, true)
+				tr = execWorld(w, t, mp, true)
+				// (the race detector can miss a report it gave before - its shadow state
+				// depends on which P a task wakes up on; the schedule itself is the same)
+				for retry := 0; retry < 8 && v.Class == "data-race" && (tr.Viol == nil || tr.Viol.Class != v.Class); retry++ {
+					sum.Counters["race_report_retries"]++
+					tr = execWorld(w, t, mp, true)
+				}
+				if v.Class == "data-race" && (tr.Viol == nil || tr.Viol.Class != v.Class) {
+					// the detector's report stands on its own (it lists both accesses)
+					sum.Counters["race_report_not_repeated"]++
+					tr.Viol = v
+				}
 				if tr.Viol == nil || tr.Viol.Class != v.Class {
 					// The original does not reproduce either: harness nondeterminism.
 					sum.Note += fmt.Sprintf("NONDETERMINISTIC run world=%s idx=%d seed=%d: %s; ", w.Name, idx, runSeed, v.Error())
@@ -407,6 +437,35 @@ func RunWorker(t *testing.T) {
 		}
 	}
 	flush(true)
+	if RaceEnabled() {
+		// package testing fails a test binary in which the detector reported
+		// anything; the reports are this worker's findings, not its failure
+		os.Exit(0)
+	}
+}
+
+// execWorld executes one plan.  In the race flavour, whatever the race
+// detector reported while the plan ran is this plan's verdict (unless the
+// world already found a violation: then the run was cut short and the
+// reports are discarded with it).
+func execWorld(w *World, t *testing.T, plan *Plan, trace bool) *Result {
+	res := w.Exec(t, plan, trace)
+	if !RaceEnabled() {
+		return res
+	}
+	res.Count("race_detector_executions", 1)
+	if res.Viol != nil {
+		RaceLogDiscard()
+		return res
+	}
+	prefix := ""
+	if st, ok := plan.Cfg["state"].(string); ok {
+		prefix = st + ":"
+	}
+	if v := RaceVerdict(plan.Property, prefix); v != nil {
+		res.Viol = v
+	}
+	return res
 }
 
 // replayMain re-executes the plan of a replay file and checks that it ends
@@ -429,7 +488,11 @@ func replayMain(t *testing.T, path string) {
 		fmt.Fprintf(os.Stderr, "HARNESS: no world %q for %s\n", rp.Plan.World, rp.Property)
 		os.Exit(2)
 	}
-	res := w.Exec(t, rp.Plan, true)
+	res := execWorld(w, t, rp.Plan, true)
+	for i := 0; i < 12 && res.Viol == nil && rp.Violation != nil && rp.Violation.Class == "data-race"; i++ {
+		// same schedule again: the detector's bounded shadow memory can miss a pair (see RunWorker)
+		res = execWorld(w, t, rp.Plan, true)
+	}
 	for _, l := range res.Trace {
 		fmt.Println("TRACE", l)
 	}
